@@ -5,7 +5,11 @@ import MqttVerif.Props.C07
 
 * (1) `C06_accepted_publish_not_dropped`
 * (2) `C06_stored_until_acked` (`Leaves`: the complete list of ways an entry leaves the store in one
-  call).  NOT proved here: "the identifier of a stored entry stays in use" (`C06_id_held_full`).
+  call).  "The identifier of a stored entry stays in use" (driver monitor `stored_id_not_held`) is
+  proved as `C06_stored_id_held_run` / `C06_stored_id_held_step` in `Props/C05.lean` (it lives on
+  C05's invariant; the two lemma chains cannot be imported together), under the ownership rule
+  `Hd.LegalIds`; the one-step formulation `C06_id_held_full` below is FALSE as stated
+  (`C06_id_held_full_false`: it lacks "the parser returns packets of the connection's version").
 * (3) `C06_unmatched_ack_is_error_noop_v3` / `_v5`
 * (4) `C06_resume_resends_client_v3` / `_client_v5` / `_server`; `C06_stored_publish_regulated_partial`
   (the invariant itself is stated as `C06_stored_publish_regulated_full`, not proved)
@@ -237,10 +241,15 @@ theorem C06_stored_until_acked (cfg : Cfg) (s : St) (op : Op) (hwf : OpWf op) (i
   | restorePackets ps => exact absurd (restorePackets_mono { cfg := cfg, s := s } ps h1) h2
 
 
-/-- NOT PROVED (time budget): while an entry stays stored its identifier stays in use, under the
-    ownership hypothesis (the identifier is awaited only in the wait set matching the entry, the
-    entry has the connection's version, and the application neither releases the identifier nor
-    reuses it for another PUBLISH / SUBSCRIBE / UNSUBSCRIBE). -/
+/-- The one-step formulation left unproved by the first pass: while an entry stays stored its
+    identifier stays in use, under the ownership hypothesis (the identifier is awaited only in the
+    wait set matching the entry, the entry has the connection's version, and the application
+    neither releases the identifier nor reuses it for another PUBLISH / SUBSCRIBE / UNSUBSCRIBE).
+    It is **false** as stated (`C06_id_held_full_false`): `OpWf` lets the parser answer with a packet
+    of another protocol version, whose PUBACK releases the identifier without erasing the stored
+    packet (`Store::erase` compares versions).  The correct statement — parser results of the
+    connection's version (`ParserOk`), ownership rule `Hd.LegalIds` — is `C06_stored_id_held_step` /
+    `C06_stored_id_held_run` in `Props/C05.lean`. -/
 def C06_id_held_full : Prop :=
   ∀ (cfg : Cfg) (s : St) (op : Op) (id : Nat) (q : Pkt), OpWf op →
     (id, q) ∈ s.store → (id, q) ∈ (step cfg s op).s.store → isUsed s id = true →
@@ -541,6 +550,42 @@ example := C06_stored_until_acked cfgS sSrv (.send connackNoSession) trivial 1 p
 example := C06_no_session_clears_connect cfgC (sC4 .disconnected [1]) { ver := 4, kind := .connect, clean := true }
   rfl rfl (by decide) rfl rfl (.inl rfl)
 
+
+/-- `C06_id_held_full` is false: a PUBACK that the parser hands over as a v3.1.1 packet on a v5.0
+    connection releases identifier 1 but leaves the stored v5.0 PUBLISH in the store -/
+def pub5 : Pkt := { pub4 with ver := 5 }
+def sHeld : St :=
+  { St.init cfgC 5 with
+    status := .connected, needStore := true, store := [(1, pub5)], puback := [1], pidMan := pidUsed1 2 }
+def parseForeign : Nat → Nat → List Nat → Except Nat Pkt := fun _ fh _ =>
+  if fh / 16 = 4 then .ok { ver := 4, kind := .puback, pid := some 1, size := 4 } else .error eMalformed
+theorem parseForeign_ok : ParseOk parseForeign := by
+  intro v fh d p h
+  simp only [parseForeign] at h
+  split at h
+  · rename_i h4; cases h; simp [Kind.nibble, h4]
+  · cases h
+
 end C06Ex
+
+theorem C06_id_held_full_false : ¬ C06_id_held_full := by
+  intro h
+  have := h C06Ex.cfgC C06Ex.sHeld (.recv [0x40, 2, 0, 1] C06Ex.parseForeign) 1 C06Ex.pub5
+    C06Ex.parseForeign_ok (by decide) (by decide) (by decide) (by decide) (by decide) rfl
+    (by
+      intro t ht
+      have : t = 4 := by
+        by_cases h4 : t = 4
+        · exact h4
+        · exfalso
+          by_cases h5 : t = 5
+          · subst h5; simp [waitSet, C06Ex.sHeld, St.init] at ht
+          · by_cases h7 : t = 7
+            · subst h7; simp [waitSet, C06Ex.sHeld, St.init] at ht
+            · unfold waitSet at ht; split at ht <;> simp_all
+      subst this
+      exact ⟨by decide, .inl rfl⟩)
+    (by intro hc; cases hc) (by intro p hc; cases hc)
+  exact absurd this (by decide)
 
 end MqttVerif.Conn
